@@ -360,6 +360,33 @@ func runScript(s script) (string, outcome) {
 			return "Status() fetched after Close() had returned is not a closed channel: a receive on it would block", oc
 		}
 	}
+	// a writer created after this one was closed is a writer of its own: whatever it counts, the closed one keeps its
+	// total and its closed channel
+	next := ioutil.NewProgressWriter(&bytes.Buffer{})
+	nextDone := make(chan struct{})
+	go func() {
+		defer close(nextDone)
+		for range next.Status() {
+		}
+	}()
+	extra := 5 + total%3
+	next.Write(make([]byte, extra))
+	if got := pw.Size(); got != total {
+		return fmt.Sprintf("after a second ProgressWriter was created and took %d bytes, Size() of the first (closed) one = %d, want still %d", extra, got, total), oc
+	}
+	if got := next.Size(); got != extra {
+		return fmt.Sprintf("a ProgressWriter created after another one was closed reports Size() = %d after its first write of %d bytes", got, extra), oc
+	}
+	select {
+	case v, ok := <-pw.Status():
+		if ok {
+			return fmt.Sprintf("the closed writer's Status() delivered %d after a second ProgressWriter was created", v), oc
+		}
+	default:
+		return "the closed writer's Status() is an open channel again after a second ProgressWriter was created", oc
+	}
+	next.Close()
+	<-nextDone
 	return "", oc
 }
 
